@@ -46,6 +46,9 @@ func main() {
 			for _, is := range v.FieldIssues {
 				fmt.Println("    FIELD", is)
 			}
+			if v.HasPush {
+				fmt.Println("    BALANCE", v.Unbalanced)
+			}
 			if verbose {
 				for _, ver := range v.Points {
 					fmt.Printf("    v%d: %s\n", ver, v.Shapes[ver])
